@@ -52,14 +52,18 @@ def stalled_chunk(tracks, cuts):
         return False
     nb = len(tb[0])
     for c in sorted({c for c in cuts if 0 < c < nb}):
-        last = 0
+        # what moves the tokeniser's clock in the bar that ends the call: note onsets and signatures, and the INTERNAL cap
+        # message of the *merged* bar — which exists only when some track's trailing rest reaches past every track's last
+        # message (a rest that ends together with another track's note-off leaves no cap message)
+        onsets, last_msg, longest = [0], 0, 0
         for bars in tb:
             rel = [from_real(m) for m in bars[c - 1].sequence.rel._messages]
             timed, dur = rel_timed(rel)
-            onsets = [t for t, m in timed if m[TY] in (ON, TIMESIG)]
-            cap = dur if (rel and rel[-1][TY] == WAIT) else 0
-            last = max([last, cap] + onsets)
-        if last == 0:
+            onsets += [t for t, m in timed if m[TY] in (ON, TIMESIG)]
+            last_msg = max([last_msg] + [t for t, m in timed])
+            longest = max(longest, dur)
+        cap = longest if longest > last_msg else 0
+        if max(onsets + [cap]) == 0:
             return True
     return False
 
